@@ -20,7 +20,9 @@ CLAIMED.update({
     'C01': dict(cat='proof', design='DESIGN.md §7 C01',
         text='Executable Gallina model of the whole matcher (Match.v, one function per CSSMatch method) run, extracted, against the '
              'implementation on every entry point; theorems: document object / non-elements never match; the answer does not depend on the '
-             'recursion fuel once it is produced (FuelFacts) nor on the memo (HistFacts); the seven attribute-operator '
+             'recursion fuel once it is produced (FuelFacts) nor on the memo (HistFacts); the patterns of the six attribute operators '
+             'accept exactly what CSS says - equality, prefix, suffix, substring, dash-match, word - for every v and every value, an '
+             'empty v designating nothing (AttrFacts, case-sensitive form); the seven attribute-operator '
              'regex templates are a Coq function (AttrPat.v) validated AST-for-AST against what the real parser compiles; an independent '
              'reference semantics on the source AST decides every selected set.',
         note='Trusted: Coq kernel, T1/T2 translators, bs4view/irdump, extraction, reference semantics (selspec.py). The Spec-equivalence '
